@@ -280,6 +280,12 @@ def handle (st : DrvState) (op : String) (a : List Int) : DrvState × String :=
   | "fir", d :: toks =>
     if d != 0 then (st, firRun (Gen.rxTapsD.map tapFloat) (fun n => Float.ofInt n / 4096) dblBits toks)
     else (st, firRun (Gen.rxTapsF.map tapFloat32) (fun n => (Float.ofInt n).toFloat32 / 4096) (fun y => Int.ofNat y.toBits.toNat) toks)
+  | "firg", d :: n :: toks =>
+    -- the same polymorphic FIR model with an arbitrary tap set (values k/4096) and tap count
+    let tp := toks.take n.toNat
+    let xs := toks.drop n.toNat
+    if d != 0 then (st, firRun (tp.map fun k => Float.ofInt k / 4096) (fun k => Float.ofInt k / 4096) dblBits xs)
+    else (st, firRun (tp.map fun k => (Float.ofInt k).toFloat32 / 4096) (fun k => (Float.ofInt k).toFloat32 / 4096) (fun y => Int.ofNat y.toBits.toNat) xs)
   | "iir", d :: toks =>
     if d != 0 then (st, iirRun (Gen.corrBD.map tapFloat) (Gen.corrAD.map tapFloat) (fun n => Float.ofInt n / 4096) dblBits toks)
     else (st, iirRun (Gen.corrBF.map tapFloat32) (Gen.corrAF.map tapFloat32) (fun n => (Float.ofInt n).toFloat32 / 4096) (fun y => Int.ofNat y.toBits.toNat) toks)
